@@ -3,12 +3,19 @@
 The facts come from /verif/driver (one JSON file per compilation unit).  This
 module contains no property logic.
 """
-import json, re
+import json, os, re
 from collections import defaultdict
 
 
 class Unit:
     def __init__(self, data):
+        # helper functions the rules do not know are spliced into their callers first (see inline.py)
+        self.inlined = {}
+        self.fn_values = {}
+        if data.get('crate') == 'fclones' and not os.environ.get('FCVERIF_NO_INLINE'):
+            from . import inline as _inline
+            self.inlined = _inline.inline_unknown(data, _inline.load_known())
+            self.fn_values = data.get('_fn_values', {})
         self.crate = data['crate']
         self.unit = data['unit']
         self.cfg = data.get('cfg', [])
@@ -56,6 +63,17 @@ class Unit:
             out.append(c)
             if recursive:
                 out.extend(self.closures_of(c, True))
+        # the closures of the helpers that were inlined into `path` belong to it now
+        for g in self.inlined.get(path, []):
+            for c in self.children.get(g, []):
+                if c not in out:
+                    out.append(c)
+                    if recursive:
+                        out.extend(x for x in self.closures_of(c, True) if x not in out)
+        # a new function that is only passed as a value (`retain(is_regular_file)`) plays the role of a closure of the function that mentions it
+        for g, users in self.fn_values.items():
+            if g in self.bodies and g not in out and (path in users or any(u in out for u in users)):
+                out.append(g)
         return out
 
     def trait_impl_methods(self, trait_suffix, method):
